@@ -46,6 +46,16 @@ def cases_C13(rng, tier):
         if b64_acceptable(e.rstrip(b"=")) or b64_acceptable(e):
             if b64_acceptable(e):
                 out.append(("base64", "find_base64", e, ("", p, "encoding.base64")))
+    for p in payloads(rng, n // 2, 30, 60):
+        e = base64.b64encode(p)
+        if not b64_acceptable(e):
+            continue
+        w = rng.choice([5, 6, 7, 9, 10, 16, 19])
+        sep = rng.choice([b"\n", b"\r\n", b"&#13;&#10;", b"&#xD;&#xA;"])
+        lines = [e[k : k + w] for k in range(0, len(e), w)]
+        if len(lines[-1].rstrip(b"=")) < 2 or len(lines) < 6:
+            continue
+        out.append(("base64", "find_base64", sep.join(lines), ("", p, "encoding.base64")))  # line breaks and their HTML escapes are ignored
     for p in payloads(rng, n, 1, 20):
         e = base64.b64encode(p)
         out.append(("base64", "find_atob", b"atob('" + e + b"')", ("javascript.string", p, "encoding.base64")))
